@@ -28,6 +28,9 @@ def run(ctx):
     w_hist.run_orders(ctx)
     ctx.deadline = saved
     w_hist.run_histories(ctx)
+    # differently decorated attributes over one function, one stacked on another in a subclass, looked up in seeded orders
+    from .. import w_mod
+    w_mod.run_siblings(ctx, 'C18')
     if ctx.shard == 0:
         # "retrieving a signature repeatedly gives equal results": also when the repetition comes from a second
         # thread while the first retrieval of the same object is still in progress
@@ -36,6 +39,9 @@ def run(ctx):
 
 
 def replay(ctx, rec):
+    if rec.get('workload') in ('mod-siblings', 'mod-bound'):
+        from .. import w_mod
+        return w_mod.replay(ctx, rec, prop='C18')
     if rec.get('workload') == 'wrap-threads':
         from .. import w_wrap
         return w_wrap.check_while_another_thread_computes(ctx, prop='C18')
